@@ -59,6 +59,13 @@ def run(ctx):
                                              nqueries=2, ticks=(st == 'timesorted'))       # cache queries (single and bulk) interleaved with stores and drains
         cfg = dict(strategy=st, max=(ctx.rng.choice([2, 3]) if w % 2 == 1 else None), flow=False, lag=lag)   # every second workload: bounded cache (refusals)
         expl.append((cfg, r_ops, w_ops, ctx.pick(1, 2), ctx.pick(40, 200), ctx.pick(150, 1200)))
+  # scale: hundreds of datapoints per series (the size-ordered strategies must still pick the largest)
+  for st in ('bucketmax', 'max'):
+    sizes = [ctx.pick(300, 700), ctx.pick(270, 400), 5]
+    pairs = [(m + 1, t) for m, n in enumerate(sizes) for t in range(1, n + 1)]
+    ctx.rng.shuffle(pairs)
+    r_ops = [('store', 'm%d' % m, t, i + 1) for i, (m, t) in enumerate(pairs)]
+    expl.append((dict(strategy=st, max=None, flow=False, lag=0, coarse=True), r_ops, [('drain',)] * 3, 0, 1, 1))
   mods, col, verdicts = cachecheck.run_plan(ctx, 'C17', models, sims, expl)
   w = f9_witness(ctx, mods)
   if w:
